@@ -68,7 +68,18 @@ def registry():
     Lean-side comparison with the grammar is a linear list equality."""
     r = _registry_by_closure()
     r = r if r is not None else _registry_by_ast()
-    return sorted(r, key=lambda e: (e[0].lhs, tuple(e[0].rhs)))
+    r = sorted(r, key=lambda e: (e[0].lhs, tuple(e[0].rhs)))
+    # round 3: a function whose name the model does not know, but which reproduces the model's
+    # handler of its productions on the probe reference, is entered under the model's name
+    # (a pure rename is not a change of behaviour); see harness/translate/fmt_probe.py
+    from harness.translate import fmt_probe
+    r, renamed = fmt_probe.canonical_names(r)
+    RENAMED.clear()
+    RENAMED.update(renamed)
+    return r
+
+
+RENAMED = {}
 
 
 def lean_str(s):
